@@ -1,4 +1,4 @@
-import XmpModel.TestLoad
+import XmpModel.TestLoadCore
 /-! Native driver for the C11 correspondence and for the title relation used by the
 direct oracle.  Line protocol (one request per line, one answer per line unless noted):
 
@@ -18,6 +18,13 @@ direct oracle.  Line protocol (one request per line, one answer per line unless 
                                         wload <rc> <recognized|-> <closedCaller> <libClosed>
       kind: path (arg: none|dir|noopen|ok)  mem (arg: size)  file (arg: ok|nosize)  cb (arg: ok|bad)
       decr: np | fail | dp:<hex>
+
+  core test functions (XmpModel/TestLoadCore.lean), mirrored by harness/c11_core.c:
+  ct <xm|mod|it|s3m> <hex data>      → ct <rc t≠NULL> <hex of the 64-byte title buffer> <pos> <rc t=NULL> <pos>
+                                       (buffer prefilled with 0xDD, first byte 0, as test_module does)
+  cw <hex data>                      → cw <rc> <hex type> <hex info.name[64]>  when one of the four accepts
+                                       (info prefilled with 0x55), else `cw none`
+  cn <xm|mod|it|s3m> <hex data>      → cn <hex of mod->name[64] after libxmp_adjust_string>
 -/
 open Xmp Xmp.TestLoad
 
@@ -114,6 +121,11 @@ def mkSource (kind arg : String) (data : Bytes) : Source :=
 
 def b2s (b : Bool) : String := if b then "1" else "0"
 
+def parseFmt (s : String) : CoreFmt :=
+  if s == "xm" then .xm else if s == "mod" then .mod else if s == "it" then .it else .s3m
+
+def idleBody : CoreFmt → Stream → LoadOut := fun _ _ => { rc := 0, name := [] }
+
 partial def loop (h : IO.FS.Stream) (st : St) : IO Unit := do
   let line ← h.getLine
   if line.isEmpty then return ()
@@ -170,6 +182,27 @@ partial def loop (h : IO.FS.Stream) (st : St) : IO Unit := do
       | some x => b2s x.recognized
       | none => "-"
     IO.println s!"wload {l.rc} {recog} {b2s (l.world.closed.contains callerId)} {(l.world.closed.filter (· == libId)).length}"
+    loop h st
+  | ["ct", f, d] =>
+    let k := parseFmt f
+    let data := parseHex d
+    if data.isEmpty then IO.println "ct skip" else
+      let t := k.test { data := data } true
+      let n := k.test { data := data } false
+      let buf := overlayOpt t.title (set0 (List.replicate nameSize 0xDD))
+      IO.println s!"ct {t.rc} {toHex buf} {t.st.pos} {n.rc} {n.st.pos}"
+    loop h st
+  | ["cw", d] =>
+    let data := parseHex d
+    let e : Env := { loaders := coreLoaders idleBody, pw := fun _ => none, bufGarbage := List.replicate nameSize 0xDD, pwGarbage := [] }
+    let i0 : Info := { name := List.replicate nameSize 0x55, type := List.replicate nameSize 0x55 }
+    let (rc, inf, _) := testModule e { data := data } (some i0)
+    if rc == 0 then
+      IO.println s!"cw {rc} {toHex (cstr ((inf.map (·.type)).getD []))} {toHex ((inf.map (·.name)).getD [])}"
+    else IO.println "cw none"
+    loop h st
+  | ["cn", f, d] =>
+    IO.println s!"cn {toHex (adjustStringBuf (coreName (parseFmt f) (parseHex d)))}"
     loop h st
   | _ => loop h st
 
